@@ -86,6 +86,10 @@ func (g *generator) walkSchemaRef(schemaRef *openapi3.SchemaRef) (ast.Type, erro
 		return g.walkRef(schemaRef)
 	}
 
+	if schemaRef.Value == nil {
+		return ast.Type{}, fmt.Errorf("schema without a value")
+	}
+
 	return g.walkDefinitions(schemaRef.Value)
 }
 
